@@ -138,6 +138,7 @@ def defects(rows):
         yield "field name with a blank inside", put(i, 1, "a b"), i
         yield "field name with a non-ASCII letter", put(i, 1, "näme"), i
         yield "field name is a keyword", put(i, 1, "class"), i
+        yield "field name is a keyword with surrounding blanks", put(i, 1, "  lambda\t"), i
         yield "empty field name", put(i, 1, "  "), i
         yield "empty mark other than X", put(i, 3, "y"), i
         yield "unknown field type", put(i, 5, "NoSuchType"), i
@@ -149,7 +150,11 @@ def defects(rows):
             yield "fixed field without length", put(i, 4, ""), i
             yield "fixed field with a length range", put(i, 4, "1...3"), i
             yield "fixed field with length 0", put(i, 4, "0"), i
-    if len(fi) >= 2: yield "duplicate field name", put(fi[1], 1, rows[fi[0]][1]), fi[1]
+    if len(fi) >= 2:
+        yield "duplicate field name", put(fi[1], 1, rows[fi[0]][1]), fi[1]
+        dup = put(fi[1], 1, rows[fi[0]][1])
+        yield "duplicate field name after completely empty rows", dup[:1] + [[], []] + dup[1:], fi[1] + 2
+        yield "duplicate field name after comment rows", dup[:1] + [[""], ["", "note"]] + dup[1:], fi[1] + 2
     for i in fi:
         r = (rows[i] + [""] * 7)[:7]
         if r[5] == "Integer": yield "broken integer rule", put(i, 6, "1...x"), i; yield "example outside the rule", put(i, 2, "x17"), i
